@@ -33,7 +33,7 @@ CLAIM = dict(
     "center_stable (float bridge: quotient error < 1/2 voxel cannot change a centre's index). Remaining public surface (round 2): coordinate_vector_linear, "
     "num_voxels_length (num_voxels(length(n)) = n; num_voxels(L) voxels cover L with < 1 voxel to spare), ceil_bridge, min_max_coordinate + voxel_in_domain (bounding box, "
     "reversed axes), matrix_indexing_false_involutive, check_equal_refl, check_equal_symm_of_symm, npclose_not_symmetric (witness: numpy's isclose is not symmetric), "
-    "inplace_ops_preserve_wellformedness (reset_origin(), origin / dimensions assignments keep the geometry well formed, so all theorems apply to the current fields), reset_origin_default, typed_subselection (__getitem__ of the typed arrays: result class and values; its third conjunct - selection commutes with conversion - is the naturality of row selection, not specific to the coordinate system). Tie: generated axis table + "
+    "inplace_ops_preserve_wellformedness (reset_origin(), origin / dimensions assignments keep the geometry well formed, so all theorems apply to the current fields), reset_origin_default, coordinate_dtype_agnostic (near-definitional: the model is over Q; the tie now covers every numpy dtype the functions accept - uint8..uint64, int8..int64, float32 (float32 precision), float64, tuples, unsigned shape arrays), typed_subselection (__getitem__ of the typed arrays: result class and values; its third conjunct - selection commutes with conversion - is the naturality of row selection, not specific to the coordinate system). Tie: generated axis table + "
     "differential correspondence model vs implementation (coordinate, voxel, opposite_corner, voxel_size, default origin, typed points, coordinate_vector, length, num_voxels, "
     "min/max_coordinate, Image.domain, voxels/coordinates, make_* incl. matrix_indexing=False and batch assertions, check_equal_coordinatesystems incl. error classes), exact on dyadic geometries, index-exact with measured float error "
     "(recorded, must stay < 2^-20 voxel) on general geometries with origins up to 1e6 voxel sizes away.",
@@ -60,12 +60,15 @@ def gen_geometry(rng, dim, shape, regime):
     if regime in ("dy-default", "dy-user", "dy-far"):
         h = [_dy(rng) for _ in range(dim)]
         dims = [float(h[p] * shape[p]) for p in range(dim)]
+        if regime != "dy-far" and all(x.is_integer() for x in dims) and rng.random() < 0.6:
+            dims = [int(x) for x in dims]  # integer-typed dimensions (and hence an integer-typed DEFAULT origin array)
         if regime == "dy-default":
             origin = None
         elif regime == "dy-user":
             origin = [float(Fraction(rng.randint(-200, 200), 2 ** rng.randint(0, 4))) for _ in range(dim)]
             if rng.random() < 0.3:  # integer-typed origin (an int array inside the image): conversions must not inherit the dtype
                 origin = [rng.randint(-200, 200) for _ in range(dim)]
+
         else:
             # origin about 1e6 voxel sizes away, still exactly representable together with every coordinate
             origin = [None] * dim
@@ -291,6 +294,8 @@ def check_case(d, case):
         back = np.asarray(back)
         got = back[0] if form == "batch" else back
         return bool(np.array_equal(got, np.array(v))), [int(x) for x in np.ravel(got)], list(v)
+    if clause == "dtype":
+        return dtype_case(d, cs, g, origin, case["op"], case["dtype"], case["rows"])
     if clause == "getitem":
         batches = typed_batches(d, cs, case["voxels"])
         kind, arr, ecls, acls = [b for b in batches if b[0] == case["kind"]][0]
@@ -536,6 +541,67 @@ def oracle_getitem(ctx, d, g, cs, vox, base):
                              f"{acls.__name__}[{form} key {key}].to_coordinate(cs) = {np.asarray(conv).tolist() if not isinstance(conv, Raised) else conv!r} but the same rows of the converted batch are {full_coord[npkey].tolist()} (voxels {rows})", case)
 
 
+DTYPES = ("uint8", "uint16", "uint32", "uint64", "int8", "int16", "int32", "int64", "float32", "float64")
+
+
+def dtype_case(d, cs, g, origin, op, dtype, rows):
+    """One op on a raw ndarray of the given dtype; expected = the affine map on the same numbers (exact rationals).
+    Returns (holds, observed, required). rows: small non-negative integers (representable in every dtype)."""
+    dim, shape = g["dim"], g["shape"]
+    dy = g.get("dyadic", False)
+    arr = np.array(rows, dtype=np.dtype(dtype))
+    scale = [abs(frac(origin[i])) + frac(g["dims"][AXMAP[dim][i][0]]) * 64 for i in range(dim)]
+
+    # float32 index arrays: numpy (value-based casting of the float64 scalars origin / voxel size) evaluates the affine map in float32,
+    # so the result carries float32 precision - inherent to numpy, not a DarSIA defect; compared with the float32 unit roundoff
+    eps_ = Fraction(1, 2 ** 23) if dtype == "float32" else EPS
+
+    def close(a, b, i):
+        if dy and dtype != "float32":
+            return frac(float(a)) == b
+        return abs(frac(float(a)) - b) <= 16 * eps_ * scale[i]
+
+    if op == "coordinate":
+        got = call(cs.coordinate, arr)
+        want = [exact_coord(g, origin, [frac(x) for x in r]) for r in rows]
+    elif op == "coordinate_vector":
+        got = call(cs.coordinate_vector, arr)
+        want = [[(-1 if AXMAP[dim][i][1] else 1) * frac(r[AXMAP[dim][i][0]]) * frac(g["dims"][AXMAP[dim][i][0]]) / shape[AXMAP[dim][i][0]] for i in range(dim)] for r in rows]
+    elif op == "coordinate(tuple)":
+        got = call(cs.coordinate, tuple(int(x) for x in rows[0]))
+        want = [exact_coord(g, origin, [frac(x) for x in rows[0]])]
+    elif op == "opposite_corner(shape array)":
+        got = call(cs.coordinate, np.array(shape, dtype=np.dtype(dtype)))
+        want = [exact_coord(g, origin, [frac(x) for x in shape])]
+    else:
+        raise ValueError(op)
+    if isinstance(got, Raised):
+        return False, repr(got), [[float(x) for x in r] for r in want]
+    gotm = np.atleast_2d(np.asarray(got, dtype=float))
+    if gotm.shape != (len(want), dim):
+        return False, f"shape {np.asarray(got).shape}", [[float(x) for x in r] for r in want]
+    ok = all(close(gotm[k][i], want[k][i], i) for k in range(len(want)) for i in range(dim))
+    return ok, gotm.tolist(), [[float(x) for x in r] for r in want]
+
+
+def oracle_dtypes(ctx, d, g, cs, origin, base):
+    """coordinate / coordinate_vector / opposite corner on raw index arrays of EVERY numeric dtype numpy offers (unsigned ones included:
+    reversed axes must not wrap around), tuples and the unsigned shape array: same value as on the same numbers in exact arithmetic."""
+    rng = ctx.rng
+    dim, shape = g["dim"], g["shape"]
+    rows = [[rng.randint(0, min(100, n_ + 2)) for n_ in shape] for _ in range(rng.randint(1, 3))]
+    if all(x == 0 for r in rows for x in r):
+        rows[0][0] = 1
+    for dtype in DTYPES:
+        for op in ("coordinate", "coordinate_vector", "opposite_corner(shape array)") + (("coordinate(tuple)",) if dtype == "int64" else ()):
+            ok, obs, req = dtype_case(d, cs, g, origin, op, dtype, rows)
+            ctx.count(("dtype", op, dtype, json.dumps(g)))
+            if not ok:
+                kindc = "unsigned" if dtype.startswith("uint") else "signed" if dtype.startswith("int") else "float"
+                ctx.fail(f"C01:dtype:{op}:{kindc}", f"{op} on a {dtype} array {rows if 'shape' not in op else shape}: observed {obs}, required {req}",
+                         {**base, "clause": "dtype", "op": op, "dtype": dtype, "rows": rows, "observed": obs, "required": req})
+
+
 def oracle_geometry(ctx, d, g, payload, halo, stats):
     """All clauses of the statement on one geometry; vectorised, failures confirmed by check_case."""
     rng = ctx.rng
@@ -652,6 +718,7 @@ def oracle_geometry(ctx, d, g, payload, halo, stats):
                          f"batch of {nb} voxel centre(s) {rows} through coordinate()/voxel() ({kind}): observed {obs}, required {req}", {**case, "observed": obs, "required": req})
     oracle_surface(ctx, d, g, payload, img, cs, origin, stats)
     oracle_getitem(ctx, d, g, cs, vox, base)
+    oracle_dtypes(ctx, d, g, cs, origin, base)
     # typed points: a negative, an inside and a beyond voxel, single and batch
     picks = {}
     for row in vox:
